@@ -157,7 +157,7 @@ func (h *handler) OnOpen(c gnet.Conn) (out []byte, action gnet.Action) {
 	defer w.exitCB(task, cs)
 	cs.opened = true
 	if w.loopOf == nil && !cs.udp {
-		w.loopOf = c.EventLoop()
+		w.loopOf, w.loopOfConn = c.EventLoop(), cs
 	}
 	vsched.Release(&cs.pub) // from here on other goroutines of the application may know the connection
 	w.openedN++
